@@ -290,6 +290,82 @@ theorem get_no_repeat (e : Env) (w : World) (scopes : List String) (st : String)
     repeat' split
     all_goals simp
 
+/-! ### what "differs from the source" means: `QCOW2ImageTransfer.compare_chain` -/
+
+/-- the files `compare_chain` looks at are exactly: every image's file of the requested state and of each state it
+is backed by, plus the vm state file of the requested state when the object is a vm -/
+theorem chain_files_exact (images : List String) (isVm : Bool) (chain : List String) (f : String) :
+    f ∈ chainFiles images isVm chain ↔
+      ∃ st ∈ chain, (∃ i ∈ images, f = i ++ "/" ++ st ++ ".qcow2") ∨
+        (isVm = true ∧ chain.head? = some st ∧ f = st ++ ".state") := by
+  cases chain with
+  | nil => simp [chainFiles]
+  | cons first rest =>
+    simp only [chainFiles, stateFiles, List.mem_flatMap, List.mem_append, List.mem_map, List.head?_cons,
+      Option.some.injEq]
+    constructor
+    · rintro ⟨st, hst, h | h⟩
+      · obtain ⟨i, hi, rfl⟩ := h
+        exact ⟨st, hst, Or.inl ⟨i, hi, rfl⟩⟩
+      · split at h
+        · rename_i hc
+          simp only [Bool.and_eq_true, beq_iff_eq] at hc
+          simp only [List.mem_cons, List.not_mem_nil, or_false] at h
+          exact ⟨st, hst, Or.inr ⟨hc.1, hc.2.symm, h⟩⟩
+        · simp at h
+    · rintro ⟨st, hst, ⟨i, hi, rfl⟩ | ⟨hv, hfirst, rfl⟩⟩
+      · exact ⟨st, hst, Or.inl ⟨i, hi, rfl⟩⟩
+      · refine ⟨st, hst, Or.inr ?_⟩
+        simp [hv, hfirst]
+
+/-- the cache is declared valid exactly when every file backing the state equals the source's; only files of the
+chain are compared, in order, all of them when valid, and an invalid verdict is due to the last file compared -/
+theorem compare_chain_exact (images : List String) (isVm : Bool) (same : String → Bool) (chain : List String) :
+    ((compareChain images isVm same chain).1 = true ↔ ∀ f ∈ chainFiles images isVm chain, same f = true) ∧
+    (compareChain images isVm same chain).2 <+: chainFiles images isVm chain ∧
+    ((compareChain images isVm same chain).1 = true →
+        (compareChain images isVm same chain).2 = chainFiles images isVm chain) ∧
+    ((compareChain images isVm same chain).1 = false →
+        ∃ pre f, (compareChain images isVm same chain).2 = pre ++ [f] ∧ same f = false ∧ ∀ g ∈ pre, same g = true) :=
+  ⟨compareFiles_iff _ _, compareFiles_prefix _ _, compareFiles_all _ _, compareFiles_stop _ _⟩
+
+/-- `download_iff_differs` with the checksum comparison spelled out: the state is downloaded again exactly when the
+chosen source has it and the local copy is missing or at least one file of its backing chain differs -/
+theorem download_iff_some_file_differs (e : Env) (w : World) (scopes : List String) (st : String) (locs : List Src)
+    (s : Src) (images : List String) (isVm : Bool) (same : Src → String → Bool) (chain : List String)
+    (hv : ∀ t, w.valid t = (compareChain images isVm (same t) chain).1) :
+    Contact.poolGet s ∈ getOp e w scopes st locs ↔
+      (getSources e locs).find? (permitted "own" e scopes) = some s ∧ st ∈ w.mirror s ∧
+      (st ∉ w.cache ∨ ∃ f ∈ chainFiles images isVm chain, same s f = false) := by
+  rw [download_iff_differs, hv s]
+  have : (compareChain images isVm (same s) chain).1 = false ↔ ∃ f ∈ chainFiles images isVm chain, same s f = false := by
+    rw [← Bool.not_eq_true, (compare_chain_exact images isVm (same s) chain).1]
+    simp
+  rw [this]
+
+example : compareChain ["image1", "image2"] true (fun f => f != "image2/base.qcow2") ["s", "base"]
+    = (false, ["image1/s.qcow2", "image2/s.qcow2", "s.state", "image1/base.qcow2", "image2/base.qcow2"]) := by decide
+example : compareChain ["image1"] false (fun _ => true) ["s", "base"] = (true, ["image1/s.qcow2", "image1/base.qcow2"]) := by
+  decide
+
+/-- `TransferOps.compare` hands a well-formed pool path to exactly one comparator: the remote one iff a host is
+named, the link one iff the local path carries a `;` (which is removed), the plain local one otherwise -/
+theorem compare_route_exact (cache pool : String) (h p : List Char) (hs : splitColon pool.toList = [h, p]) :
+    compareRoute cache pool =
+      .ok (if h ≠ [] then .remote cache pool
+           else if ';' ∈ p then .link cache (String.ofList (p.filter (· != ';')))
+           else .plain cache (String.ofList p)) := by
+  unfold compareRoute
+  rw [hs]
+  by_cases hh : h = []
+  · by_cases hp : ';' ∈ p <;> simp [hh, hp]
+  · simp [hh]
+
+example : compareRoute "/c/f" ":/pool;/f" = .ok (.link "/c/f" "/pool/f") ∧
+    compareRoute "/c/f" "host:/pool/f" = .ok (.remote "/c/f" "host:/pool/f") ∧
+    compareRoute "/c/f" ":/pool/f" = .ok (.plain "/c/f" "/pool/f") ∧ compareRoute "/c/f" "/pool/f" = .error .valueError := by
+  decide
+
 /-! ## Saving and removing reach every permitted mirror -/
 
 /-- a successful `set` first saves/looks up the local state and then updates exactly the permitted listed
